@@ -43,4 +43,7 @@ def util_xopen (truth : Term → Bool) : Out :=
 /-- the decorators of dataiter/util.py: xopen, outermost first -/
 def util_xopen_decorators : List String := []
 
+/-- the signature of dataiter/util.py: xopen: parameters in order, with the source text of their defaults -/
+def util_xopen_signature : List String := ["path", "mode='r'", "**kwargs"]
+
 end DI.Gen
